@@ -23,6 +23,16 @@ def spd_int(rng, d):
     return A.dot(A.T) + d * np.eye(d, dtype=int)
 
 
+def dependent_basis(rng, d):
+    """a basis array with more rows than features whose rows span a proper subspace (e.g. pairwise differences of a
+    few class means): many elements can be active although the metric has rank < d"""
+    r = max(1, d - 1 - int(rng.randint(0, 2)))
+    G = rng.randn(r, d)
+    B = rng.randn(2 * d + 2, r).dot(G)
+    B /= np.linalg.norm(B, axis=1, keepdims=True)
+    return {'basis': B, 'n_basis': len(B)}
+
+
 def configs(name, rng, d, n_classes, thorough):
     """documented option values of the estimator (a sample in the quick tier)"""
     out = []
@@ -59,11 +69,13 @@ def configs(name, rng, d, n_classes, thorough):
         out.append({'basis': 'triplet_diffs', 'n_basis': d + 1})
         B = rng.randn(3 * d, d); B /= np.linalg.norm(B, axis=1, keepdims=True)
         out.append({'basis': B, 'n_basis': 3 * d})
+        out.append(dependent_basis(rng, d))
     elif name == 'SCML_Supervised':
         out.append({'basis': 'lda'})
         out.append({'basis': 'triplet_diffs'})
         B = rng.randn(3 * d, d); B /= np.linalg.norm(B, axis=1, keepdims=True)
         out.append({'basis': B, 'n_basis': 3 * d})
+        out.append(dependent_basis(rng, d))
     else:
         out.append({})
     return out
